@@ -6,6 +6,8 @@ CONSTANTS Times <- McTimesT
  QMenu <- McQMenu
  MaxBlocks = 5
  HashCoversSig = FALSE
+ Encs = {"c", "h", "k", "g", "x"}
+ CarrierKeyed = FALSE
  PruneLife = 1800
  ReloadLife = 1800
 INVARIANTS TypeOK GuardSound NoDangling LiveCached WindowSufficient TracerComplete CarryEquiv
